@@ -290,7 +290,7 @@ static void on_tick(int sig)
     return;
   }
   if (op_seq == tick_seen_seq) {
-    if (++tick_count >= 3) {
+    if (++tick_count >= 2) {
       guarded    = 0;
       tick_count = 0;
       unblock(sig);
@@ -314,7 +314,8 @@ static void install_guards()
   sigaction(SIGVTALRM, &sa, nullptr);
   struct itimerval it;
   it.it_interval.tv_sec  = 0;
-  it.it_interval.tv_usec = 400000; // CPU time of this process: an op still running after >0.8 s of CPU is hung
+  it.it_interval.tv_usec = 25000; // CPU time of this process: an op still running after 25-50 ms of CPU is hung
+                                  // (a solve of these systems takes microseconds; bmf's 1000 iterations a few ms)
   it.it_value            = it.it_interval;
   setitimer(ITIMER_VIRTUAL, &it, nullptr);
   // stderr of the kernel (assert messages, bmf's "Unable to find a BMF allocation") goes to a memfd we can read back
